@@ -3,6 +3,7 @@ CONSTANTS
   HeomResets = TRUE
   FreeModeLocal = TRUE
   RestoreOnError = TRUE
+  SplitCopies = TRUE
   NefRecomputes = TRUE
   NrefPersists = TRUE
 SPECIFICATION Spec
